@@ -20,14 +20,22 @@ range, `%` by a zero check window).  Proved here:
     `C12_on_schedule_gauge_is_safe_later` (Props/C12.lean — the helper files of the two modules
     cannot be imported together): with the escrow holding `A − cumulative now1` after a release,
     the amount computed at any later `now2` is `cumulative now2 − cumulative now1`, non-negative
-    and within int64, and the division is defined.  What remains a hypothesis here is the frame
-    fact that nothing but a gauge's own deposits and releases moves its escrow account.
+    and within int64, and the division is defined.
+  - The hypothesis is DISCHARGED in section (7): `GaugeInv` (Proofs/GaugeInvDef.lean) is a state
+    invariant — every gauge has started, lasts ≥ 2 µs, records `[]` or one ujkl amount `A ≥ 0`, and
+    while live has withdrawn at most `ratio(t)·A` in the exact `sdk.Dec` arithmetic; escrow accounts
+    are `E.accOf id`, not a module account; the ledger is non-negative with supply ≤ MaxInt64.  It
+    holds at genesis, implies `GaugesSafe`, and is kept by every message and by the reward block;
+    `C05_history_never_panics_unconditional` needs only the benign side conditions `HistOk`
+    (monotone block times, no message signed by an escrow account, the id/escrow oracle follows a
+    fixed injective scheme and an already stored id was stored at the same block time).
 * sizes are unbounded `Int` in the model, matching the repaired code that sums the credited sizes
   in arbitrary precision: `total = Σ fileSize·|proofs| ≥ 1` as soon as somebody is credited.
 * the mint BeginBlocker (`Canine.Mint.blockMint`) is a total function; the amounts handed to
   `sdk.NewInt64Coin` are non-negative (`C05_mint_never_panics`).
 -/
 import Canine.Proofs.RewardD
+import Canine.Proofs.GaugeInvStep
 namespace Canine.Storage
 open Bank
 
@@ -362,5 +370,250 @@ example : ∃ s', beginBlock (gState 10) 6 gNoon = .ok s' ∧ bal s'.bank "prov"
   simp only [show (gState 10).params.checkWindow ≠ 0 by decide, show ¬ Int.tmod 6 (gState 10).params.checkWindow > 0 by decide,
     if_false, e, bind, Except.bind, gPull, List.mergeSort_singleton, List.foldlM_cons, List.foldlM_nil]
   rfl
+
+end Canine.Storage
+
+
+/-! ### (7) the gauge hypothesis discharged: `GaugeInv` is an invariant of every history -/
+namespace Canine.Storage
+open Bank GI
+
+/-- **Side conditions on a history** (nothing about release amounts, ratios or decimals):
+* times are non-decreasing along the history and start at `t` (CometBFT BFT time: the time of a
+  block is not before the time of its predecessor; every message of a block carries the block time);
+* every message satisfies `MsgOk` in the state it is delivered to: it is not signed by the escrow
+  account of a stored gauge, and the id / escrow account the chain derived for a new gauge follow the
+  fixed injective scheme `E`, avoid the two module accounts, and an id that is already stored was
+  stored at this same block time (see `MsgOk`).
+Blocks carry no condition besides their time. -/
+def HistOk (E : EscrowScheme) (s : State) (t : Int) : List (Int × Int × BEv) → Prop
+  | [] => True
+  | (h, now, .msg op) :: rest => t ≤ now ∧ MsgOk E s now op ∧ HistOk E (stepT s h now op) now rest
+  | (h, now, .block) :: rest => t ≤ now ∧ ∀ s', beginBlock s h now = .ok s' → HistOk E s' now rest
+
+/-- the time of the last event of a history that starts at `t` -/
+def lastTime (t : Int) : List (Int × Int × BEv) → Int
+  | [] => t
+  | (_, now, _) :: rest => lastTime now rest
+
+/-- **C05 (7a).**  The gauge invariant is kept by every message and by the reward block
+(`step_gaugeInv`, `beginBlock_gaugeInv`), time passing keeps it (`GaugeInv.advance`), and it implies
+the hypothesis `GaugesSafe` of `C05_beginBlock_never_panics` (`GaugeInv.gaugesSafe`). -/
+theorem C05_gaugeInv_preserved (E : EscrowScheme) (s s' : State) (h t now : Int) (hinv : NoPanicInv s)
+    (hg : GaugeInv E s t) (ht : t ≤ now) :
+    GaugesSafe s now ∧
+    (∀ op, MsgOk E s now op → GaugeInv E (stepT s h now op) now) ∧
+    (beginBlock s h now = .ok s' → GaugeInv E s' now) :=
+  ⟨(hg.advance ht).gaugesSafe, fun _ hok => stepT_gaugeInv (hg.advance ht) hok,
+   fun hb => beginBlock_gaugeInv hinv.2 (hg.advance ht) hb⟩
+
+/-- **C05, histories, without the gauge hypothesis.**  From a state that satisfies `NoPanicInv` and
+the gauge invariant `GaugeInv` at time `t0` — e.g. genesis: no files, no gauges, a ledger in order
+(`C05_noPanicInv_genesis`, `C05_gaugeInv_genesis`) — no sequence of messages and blocks satisfying the
+side conditions `HistOk` makes a block panic. -/
+theorem C05_history_never_panics_unconditional (E : EscrowScheme) :
+    ∀ (hist : List (Int × Int × BEv)) (s : State) (t0 : Int),
+      NoPanicInv s → GaugeInv E s t0 → HistOk E s t0 hist → ∃ s', runB s hist = some s'
+  | [], s, _, _, _, _ => ⟨s, rfl⟩
+  | (h, now, .msg op) :: rest, s, t0, hinv, hg, hh => by
+    simp only [runB]
+    obtain ⟨ht, hok, hrest⟩ := hh
+    refine C05_history_never_panics_unconditional E rest _ now ?_ (stepT_gaugeInv (hg.advance ht) hok) hrest
+    unfold stepT
+    cases hs : step s h now op with
+    | none => simpa using hinv
+    | some s1 => simpa using (C05_validation_establishes_sizes s s1 h now hinv).1 op hs
+  | (h, now, .block) :: rest, s, t0, hinv, hg, hh => by
+    obtain ⟨ht, hrest⟩ := hh
+    have hg' := hg.advance ht
+    obtain ⟨s1, hb⟩ := C05_beginBlock_never_panics s h now hinv hg'.gaugesSafe
+    simp only [runB, hb]
+    exact C05_history_never_panics_unconditional E rest s1 now
+      ((C05_validation_establishes_sizes s s1 h now hinv).2 hb) (beginBlock_gaugeInv hinv.2 hg' hb) (hrest s1 hb)
+
+/-- both invariants hold at the end of every such history -/
+theorem C05_invariants_along_histories (E : EscrowScheme) :
+    ∀ (hist : List (Int × Int × BEv)) (s s' : State) (t0 : Int),
+      NoPanicInv s → GaugeInv E s t0 → HistOk E s t0 hist → runB s hist = some s' →
+      NoPanicInv s' ∧ GaugeInv E s' (lastTime t0 hist)
+  | [], s, s', _, hinv, hg, _, hr => by
+    simp only [runB, Option.some.injEq] at hr; subst hr; exact ⟨hinv, hg⟩
+  | (h, now, .msg op) :: rest, s, s', t0, hinv, hg, hh, hr => by
+    simp only [runB] at hr
+    obtain ⟨ht, hok, hrest⟩ := hh
+    refine C05_invariants_along_histories E rest _ s' now ?_ (stepT_gaugeInv (hg.advance ht) hok) hrest hr
+    unfold stepT
+    cases hs : step s h now op with
+    | none => simpa using hinv
+    | some s1 => simpa using (C05_validation_establishes_sizes s s1 h now hinv).1 op hs
+  | (h, now, .block) :: rest, s, s', t0, hinv, hg, hh, hr => by
+    simp only [runB] at hr
+    obtain ⟨ht, hrest⟩ := hh
+    split at hr
+    · rename_i s1 hb
+      exact C05_invariants_along_histories E rest s1 s' now
+        ((C05_validation_establishes_sizes s s1 h now hinv).2 hb) (beginBlock_gaugeInv hinv.2 (hg.advance ht) hb)
+        (hrest s1 hb) hr
+    · simp at hr
+
+/-- the gauge invariant at genesis: no gauges, and a ledger with non-negative entries whose total
+supply of every denomination fits an int64 (storage messages and blocks only move coins, so the
+bound is kept — `BankOk.moves`) -/
+theorem C05_gaugeInv_genesis (E : EscrowScheme) (s : State) (t : Int) (hG : s.gauges = [])
+    (hnn : ∀ kv ∈ s.bank, 0 ≤ kv.2) (hsup : ∀ d, supply s.bank d ≤ I64.maxV) : GaugeInv E s t :=
+  GaugeInv.init E s t hG ⟨hnn, hsup⟩
+
+/-- from genesis: the statement with only benign hypotheses left -/
+theorem C05_history_never_panics_from_genesis (E : EscrowScheme) (hist : List (Int × Int × BEv)) (s : State) (t0 : Int)
+    (hF : s.files = []) (hw : 1 < s.params.checkWindow) (hG : s.gauges = [])
+    (hnn : ∀ kv ∈ s.bank, 0 ≤ kv.2) (hsup : ∀ d, supply s.bank d ≤ I64.maxV) (hh : HistOk E s t0 hist) :
+    ∃ s', runB s hist = some s' :=
+  C05_history_never_panics_unconditional E hist s t0 (C05_noPanicInv_genesis s hF hw)
+    (C05_gaugeInv_genesis E s t0 hG hnn hsup) hh
+
+/-! #### the hypotheses are satisfiable: a purchase, a same-block second purchase merging into the
+same gauge, then two reward blocks -/
+
+/-- escrow account of gauge `id`: the id with a prefix -/
+def exE : EscrowScheme := ⟨fun id => "esc/" ++ id, fun _ _ h => (String.append_right_inj _).mp h⟩
+
+def exS0 : State :=
+  { (default : State) with
+    params := { (default : Params) with checkWindow := 3, proofWindow := 100, pricePerTbPerMonth := 8, referralCommission := 25, polRatio := 40 }
+    bank := [(("alice", "ujkl"), 1000000000000), (("bob", "ujkl"), 1000000000000)]
+    moduleAcc := "mod"
+    collateralAcc := "coll"
+    polAcc := "pol"
+    feeAcc := "fee" }
+
+def exT0 : Int := 1700000000000000000
+/-- alice buys 1 TB for 30 days at 0.20 $/JKL; the chain derives gauge id "g1", escrow "esc/g1" -/
+def exOp : Op := .buyStorage "alice" "alice" 30 1000000000000 "ujkl" none 200000000000000000 "g1" "esc/g1"
+/-- bob buys the same plan in the same block: same height, end and coins, hence the same gauge id -/
+def exOp2 : Op := .buyStorage "bob" "bob" 30 1000000000000 "ujkl" none 200000000000000000 "g1" "esc/g1"
+def exHist : List (Int × Int × BEv) :=
+  [(2, exT0, .msg exOp), (2, exT0, .msg exOp2), (3, exT0 + dayNs, .block), (6, exT0 + 2 * dayNs, .block)]
+
+def exG : Gauge :=
+  { id := "g1", startT := exT0, endT := exT0 + 30 * dayNs, coins := [("ujkl", 4666666)], account := "esc/g1" }
+/-- the state after the first purchase: 13333333 ujkl paid, 4666666 of them in escrow -/
+def exS1 : State :=
+  { exS0 with
+    bank := [(("alice", "ujkl"), 999986666667), (("bob", "ujkl"), 1000000000000), (("mod", "ujkl"), 1), (("esc/g1", "ujkl"), 4666666),
+             (("pol", "ujkl"), 5333333), (("fee", "ujkl"), 3333333)]
+    payinfo := [("alice", { startT := exT0, endT := exT0 + 30 * dayNs, spaceAvailable := 1000000000000, spaceUsed := 0, address := "alice" })]
+    gauges := [("g1", exG)] }
+
+theorem exStep : stepT exS0 2 exT0 exOp = exS1 := by rfl
+
+/-- **The hypotheses of `C05_history_never_panics_unconditional` hold** for `exS0`, `exHist`. -/
+theorem exHyps : NoPanicInv exS0 ∧ GaugeInv exE exS0 exT0 ∧ HistOk exE exS0 exT0 exHist := by
+  refine ⟨C05_noPanicInv_genesis exS0 rfl (by decide), C05_gaugeInv_genesis exE exS0 exT0 rfl ?_ ?_, ?_⟩
+  · intro kv hkv
+    simp only [exS0, List.mem_cons, List.not_mem_nil, or_false] at hkv
+    rcases hkv with e | e <;> subst e <;> decide
+  · intro d
+    simp only [exS0, supply]
+    unfold I64.maxV
+    split <;> omega
+  · simp only [exHist, HistOk, exStep]
+    refine ⟨Int.le_refl _, ⟨?_, ?_⟩, Int.le_refl _, ⟨?_, ?_⟩, by unfold dayNs; omega,
+      fun _ _ => ⟨by unfold dayNs; omega, fun _ _ => trivial⟩⟩
+    · intro kv hkv
+      rw [show exS0.gauges = [] from rfl] at hkv; simp at hkv
+    · intro gid gacc hop
+      simp only [exOp, Op.gaugeOf, Option.some.injEq, Prod.mk.injEq] at hop
+      obtain ⟨rfl, rfl⟩ := hop
+      refine ⟨rfl, by decide, by decide, ?_⟩
+      intro g hg
+      rw [show exS0.gauges = [] from rfl] at hg; simp at hg
+    · intro kv hkv
+      simp only [exS1, List.mem_singleton] at hkv
+      subst hkv; decide
+    · intro gid gacc hop
+      simp only [exOp2, Op.gaugeOf, Option.some.injEq, Prod.mk.injEq] at hop
+      obtain ⟨rfl, rfl⟩ := hop
+      refine ⟨rfl, by decide, by decide, ?_⟩
+      intro g hg
+      simp only [exS1, AMap.get, if_true, Option.some.injEq] at hg
+      subst hg; rfl
+
+example : ∃ s', runB exS0 exHist = some s' :=
+  C05_history_never_panics_unconditional exE exHist exS0 exT0 exHyps.1 exHyps.2.1 exHyps.2.2
+
+/-! the history is not trivial: both purchases succeed, the second merges into the gauge of the
+first, and both reward blocks run the release path -/
+
+def exBank (bob md esc : Int) : Bank :=
+  [(("alice", "ujkl"), 999986666667), (("bob", "ujkl"), bob), (("mod", "ujkl"), md), (("esc/g1", "ujkl"), esc),
+   (("pol", "ujkl"), 10666666), (("fee", "ujkl"), 6666666)]
+
+/-- after bob's purchase: one gauge "g1" recording 9333332 ujkl, all of it in escrow -/
+def exS2 : State :=
+  { exS1 with
+    bank := exBank 999986666667 2 9333332
+    payinfo := [("alice", { startT := exT0, endT := exT0 + 30 * dayNs, spaceAvailable := 1000000000000, spaceUsed := 0, address := "alice" }),
+                ("bob", { startT := exT0, endT := exT0 + 30 * dayNs, spaceAvailable := 1000000000000, spaceUsed := 0, address := "bob" })]
+    gauges := [("g1", { exG with coins := [("ujkl", 9333332)] })] }
+
+theorem exStep2 : stepT exS1 2 exT0 exOp2 = exS2 := by rfl
+
+/-- a reward block on a state without files: the gauges are pulled, nobody is paid -/
+theorem beginBlock_no_files (s s' : State) (rel : Coins) (t h : Int) (hw : s.params.checkWindow = 3)
+    (hf : s.files = []) (hh : Int.tmod h 3 = 0) (hp : pullGauges s t = .ok (s', rel)) :
+    beginBlock s h t = .ok s' := by
+  unfold beginBlock manageRewards sortedProvers
+  simp only [hw, hf, hh, show ¬ ((3 : Int) = 0) by omega, show ¬ ((0:Int) > 0) by omega, if_false, List.foldl_nil, bind,
+    Except.bind, hp, List.mergeSort_nil, List.foldlM_nil, pure, Except.pure]
+
+def exSt (md esc : Int) : State := { exS2 with bank := exBank 999986666667 md esc }
+
+/-- the run, evaluated: the two purchases put 9333332 ujkl into escrow under one gauge; the first
+reward block (one day later, height 3) releases 311111, the second (height 6) another 311111 -/
+theorem exRun : runB exS0 exHist = some (exSt 622224 8711110) := by
+  simp only [exHist, runB, exStep, exStep2]
+  have b1 : beginBlock exS2 3 (exT0 + dayNs) = .ok (exSt 311113 9022221) :=
+    beginBlock_no_files exS2 _ [("ujkl", 311111)] _ _ rfl rfl (by decide) (by rfl)
+  have b2 : beginBlock (exSt 311113 9022221) 6 (exT0 + 2 * dayNs) = .ok (exSt 622224 8711110) :=
+    beginBlock_no_files _ _ [("ujkl", 311111)] _ _ rfl rfl (by decide) (by rfl)
+  simp only [b1, b2]
+
+/-- the escrow account is debited exactly what the module account receives, and the final state
+again satisfies both invariants (`C05_invariants_along_histories`) -/
+example : bal (exSt 622224 8711110).bank "esc/g1" "ujkl" = 9333332 - 2 * 311111 ∧
+    NoPanicInv (exSt 622224 8711110) ∧ GaugeInv exE (exSt 622224 8711110) (exT0 + 2 * dayNs) :=
+  ⟨by decide, C05_invariants_along_histories exE exHist exS0 _ exT0 exHyps.1 exHyps.2.1 exHyps.2.2 exRun⟩
+
+/-! #### the same-block-time condition on a re-used gauge id is needed -/
+
+theorem beginBlock_no_files_error (s : State) (e : String) (t h : Int) (hw : s.params.checkWindow = 3)
+    (hf : s.files = []) (hh : Int.tmod h 3 = 0) (hp : pullGauges s t = .error e) :
+    beginBlock s h t = .error e := by
+  unfold beginBlock manageRewards
+  simp only [hw, hf, hh, show ¬ ((3 : Int) = 0) by omega, show ¬ ((0:Int) > 0) by omega, if_false, List.foldl_nil, bind,
+    Except.bind, hp]
+
+/-- alice's gauge one day later, after the first reward block released 155555 ujkl -/
+def exS1' : State :=
+  { exS1 with
+    bank := [(("alice", "ujkl"), 999986666667), (("bob", "ujkl"), 1000000000000), (("mod", "ujkl"), 155556), (("esc/g1", "ujkl"), 4511111),
+             (("pol", "ujkl"), 5333333), (("fee", "ujkl"), 3333333)] }
+
+/-- **Why `MsgOk.oracle` asks that an already stored id was stored at this block time.**  If the id
+oracle returned, one block later, the id of alice's gauge again (for the real chain: a SHA-256
+collision between two different heights), bob's deposit would be merged into alice's gauge and
+`NewGauge` would restart it at the new block time, although 155555 ujkl have already left escrow; an
+hour later the schedule of the restarted gauge is still behind that, and the reward block panics. -/
+theorem C05_cross_block_merge_panics :
+    runB exS0 [(2, exT0, .msg exOp), (3, exT0 + dayNs, .block)] = some exS1' ∧
+    beginBlock (stepT exS1' 4 (exT0 + dayNs) exOp2) 6 (exT0 + dayNs + 3600000000000)
+      = .error "negative coin amount: -142592" := by
+  constructor
+  · simp only [runB, exStep]
+    have b1 : beginBlock exS1 3 (exT0 + dayNs) = .ok exS1' :=
+      beginBlock_no_files exS1 _ [("ujkl", 155555)] _ _ rfl rfl (by decide) (by rfl)
+    simp only [b1]
+  · exact beginBlock_no_files_error _ _ _ _ rfl rfl (by decide) (by rfl)
+
 
 end Canine.Storage
